@@ -699,6 +699,43 @@ def inline_new_locals(q, fn, base_locals, log, name):
     if any(isinstance(x, ast.Call) and ((isinstance(x.func, ast.Attribute) and x.func.attr in _EFFECT_METHODS) or (isinstance(x.func, ast.Name) and x.func.id in ("next", "input")))
            for x in ast.walk(val)):
       continue
+    # a value that reads an item of a container (`pending[-1]`, `stack[0]`, `table[k]`) is a snapshot of the container at that point:
+    # when the function also changes that container (pop / append / item assignment / del), a later use must not re-read it
+    bases = {ast.unparse(x.value) for x in ast.walk(val) if isinstance(x, ast.Subscript) and isinstance(x.ctx, ast.Load)}
+    if bases:
+      mutated = set()
+      for x in _own_walk(fn):
+        if isinstance(x, ast.Call) and isinstance(x.func, ast.Attribute) and x.func.attr in _EFFECT_METHODS | {"clear", "sort", "reverse", "update", "setdefault"}:
+          mutated.add(ast.unparse(x.func.value))
+        elif isinstance(x, ast.Subscript) and isinstance(x.ctx, (ast.Store, ast.Del)):
+          mutated.add(ast.unparse(x.value))
+        elif isinstance(x, ast.AugAssign):
+          mutated.add(ast.unparse(x.target))
+      if bases & mutated:
+        continue
+    # a value that reads a field (`self._last_child`, `child._next_sibling`) is a snapshot of that field: when the function also assigns
+    # the field, a later use must not re-read it
+    fields = {ast.unparse(x) for x in ast.walk(val) if isinstance(x, ast.Attribute) and isinstance(x.ctx, ast.Load)}
+    if fields:
+      store_nodes = [x for x in _own_walk(fn) if isinstance(x, ast.Attribute) and isinstance(x.ctx, (ast.Store, ast.Del))
+                     and (ast.unparse(x) in fields or x.attr in {f_.split(".")[-1] for f_ in fields})]
+      if store_nodes:
+        # harmless only when every use of the local precedes every such assignment within one execution of the block that holds the
+        # definition (same innermost loop for definition and uses; the assignments come later in the text)
+        uses_ = [n for n in _own_walk(fn) if isinstance(n, ast.Name) and n.id == v and isinstance(n.ctx, ast.Load)]
+
+        def _loop_of(n_):
+          cur_ = getattr(n_, "_parent", None)
+          while cur_ is not None and cur_ is not fn:
+            if isinstance(cur_, (ast.For, ast.While)):
+              return cur_
+            cur_ = getattr(cur_, "_parent", None)
+          return None
+        pos_ = lambda n_: (getattr(n_, "lineno", 0), getattr(n_, "col_offset", 0))
+        same_scope = all(_loop_of(u_) is _loop_of(st) for u_ in uses_)
+        last_use = max((pos_(u_) for u_ in uses_), default=(0, 0))
+        if not (same_scope and all(pos_(x_) > last_use for x_ in store_nodes)):
+          continue
     # the statement must sit directly in a statement list (not under a condition that may be skipped: accepted, approximation)
     uses = [n for n in _own_walk(fn) if isinstance(n, ast.Name) and n.id == v and isinstance(n.ctx, ast.Load)]
     if not uses or any((u.lineno, u.col_offset) < (st.lineno, st.col_offset) for u in uses if hasattr(u, "lineno")):
